@@ -2,6 +2,7 @@
 import Rrtk.Drv.Base
 import Rrtk.Drv.Se
 import Rrtk.Devices
+import Rrtk.TermFollow
 namespace Rrtk.Drv
 open Rrtk Rrtk.Wire
 
@@ -17,6 +18,25 @@ def Dev.update (d : Dev) (w : World F) : World F :=
   | .gear r a b => GearTrain.update r w a b
   | .axle is => Axle.update w is
   | .diff m a b c => Differential.update m w a b c
+
+/-- the terminals a device owns, in the order `update_terminals` visits them -/
+def Dev.terminals (d : Dev) : List Nat :=
+  match d with
+  | .inv a b => [a, b]
+  | .gear _ a b => [a, b]
+  | .axle is => is
+  | .diff _ a b c => [a, b, c]
+
+/-- `E<n>` | `EN` | `N` | `S@<outer time>@<time>@<value>`: the output of a getter of `Datum<α>` (a terminal follows such getters) -/
+def pOutDatum {α : Type} (pv : String → Option α) (s : String) : Option (Output (Datum α)) :=
+  if s == "N" then some (.ok none)
+  else if s.startsWith "S@" then
+    match (s.drop 2).toString.splitOn "@" with
+    | [t, ti, v] => match t.toInt?, pDatum pv (ti ++ "@" ++ v) with
+      | some t, some d => some (.ok (some ⟨t, d⟩))
+      | _, _ => none
+    | _ => none
+  else (pErr s).map .error
 
 def sTd (td : TerminalData F) : String := s!"{td.time}~{sOpt sCmd td.command}~{sOpt sState td.state}"
 def sTdOut (o : Option (Datum (TerminalData F))) : String :=
@@ -96,8 +116,25 @@ def runDv (chk : Bool) (toks : List String) : M Unit := do
   let (setup, ops) := splitAtDashes toks
   let (w0, devs) ← dvSetup chk setup
   let mut w := w0
+  -- per terminal: is the slot following its scripted getter, and what that getter returns now
+  let mut folS : Array Bool := Array.replicate w0.n false
+  let mut folC : Array Bool := Array.replicate w0.n false
+  let mut outS : Array (Output (Datum (State F))) := Array.replicate w0.n (.ok none)
+  let mut outC : Array (Output (Datum (Command F))) := Array.replicate w0.n (.ok none)
   for op in ops do
+    let fo : Nat → Followed F := fun i =>
+      ⟨if folC[i]?.getD false then outC[i]? else none, if folS[i]?.getD false then outS[i]? else none⟩
     match op.splitOn ":" with
+    | ["fs", i] => let i ← pIdx w i; folS := folS.set! i true; emit "-"
+    | ["fc", i] => let i ← pIdx w i; folC := folC.set! i true; emit "-"
+    | ["nfs", i] => let i ← pIdx w i; folS := folS.set! i false; emit "-"
+    | ["nfc", i] => let i ← pIdx w i; folC := folC.set! i false; emit "-"
+    | ["gs", i, o] => let i ← pIdx w i; outS := outS.set! i (← need (pOutDatum pState o)); emit "-"
+    | ["gc", i, o] => let i ← pIdx w i; outC := outC.set! i (← need (pOutDatum pCmd o)); emit "-"
+    | ["tu", i] =>
+      let i ← pIdx w i
+      let r := w.terminalUpdate i (fo i)
+      w := r.1; emit (sUpd r.2)
     | ["c", i, j] =>
       let i ← pIdx w i; let j ← pIdx w j
       w ← liftP (w.connect i j); emit "-"
@@ -113,11 +150,17 @@ def runDv (chk : Bool) (toks : List String) : M Unit := do
     | ["u", d] =>
       let d ← need d.toNat?
       match devs[d]? with
-      | some dev => w := dev.update w; emit "ok"
+      | some dev =>
+        let r := updateWithFollowers dev.update dev.terminals w fo
+        w := r.1; emit (sUpd r.2)
       | none => throw .bad
     | ["ut", d] =>
       let d ← need d.toNat?
-      if d < devs.size then emit "ok" else throw .bad
+      match devs[d]? with
+      | some dev =>
+        let r := w.updateTerminals fo dev.terminals
+        w := r.1; emit (sUpd r.2)
+      | none => throw .bad
     | ["r", i] => let i ← pIdx w i; emit (sRead w i)
     | ["o", i] => let i ← pIdx w i; emit (sOwn w i)
     | ["ra"] => for i in List.range w.n do emit (sRead w i)
